@@ -51,10 +51,10 @@ def impl_decision(ans, named, names, enum):
         return ("err",)
     if ans.startswith("panic"):
         return ("panic", ans[:160])
-    s = G.strip_ws(ans[3:])
+    s = G.strip_ws(ans[3:]).replace("derive_more::core::option::Option::", "").replace("derive_more::core::option::Option<", "Option<")
     m = re.search(r"fnsource\(&self\)->Option<&\(dynderive_more::with_trait::Error\+'static\)>\{usederive_more::__private::AsDynError;(.*?)\}(fnprovide|\}$)", s)
     if not m:
-        return ("ok", None)
+        return ("ok", None) if "fnsource" not in s else ("other", "unrecognised `source` body: " + s[s.index("fnsource"):][:160])
     body = m.group(1)
     if not enum:
         mm = re.fullmatch(r"Some\(self\.(r#\w+|\w+)\.as_dyn_error\(\)\)", body)
